@@ -930,6 +930,46 @@ fn build_one(c: &mut Ctx, fam: &str, idx: u64, rng: &mut Rng) {
             }
         }
     }
+    // the zero-copy containers: a message parsed in place inside a mutable slice and inside a
+    // box is written through (this is what the builder does with its buffer) and reads the same
+    if idx % 7 == 3 {
+        use domain::new::base::parse::ParseBytesZC;
+        use domain::new::base::Message as NewMessage;
+        let r = ctx::catch(|| {
+            let mut a = nb.clone();
+            let ma = NewMessage::parse_bytes_in(&mut a[..]).map_err(|_| ())?;
+            ma.header.id = U16::new(0x4242);
+            if let Some(x) = ma.contents.first_mut() {
+                *x ^= 0;
+            }
+            let first = ma.as_bytes().to_vec();
+            let bx: Box<[u8]> = nb.clone().into_boxed_slice();
+            let mut mb = NewMessage::parse_bytes_in(bx).map_err(|_| ())?;
+            mb.header.id = U16::new(0x4242);
+            let second = mb.as_bytes().to_vec();
+            Ok::<_, ()>((first, second))
+        });
+        match r {
+            Ok(Ok((f, sd))) => {
+                let mut want = nb.clone();
+                want[0] = 0x42;
+                want[1] = 0x42;
+                if f != want || sd != want {
+                    c.violation("in-place:message-differs", "a message parsed in place and given another ID does not hold the same octets otherwise", c.replay_of(fam, idx, ex()));
+                    return;
+                }
+                c.count("in_place_containers_written", 1);
+            }
+            Ok(Err(())) => {
+                c.violation("in-place:rejected", "a built message is refused by Message::parse_bytes_in", c.replay_of(fam, idx, ex()));
+                return;
+            }
+            Err(pi) => {
+                c.violation(&format!("panic:{}", pi.site()), &format!("panic parsing a message in place: {}", pi.msg), c.replay_of(fam, idx, ex()));
+                return;
+            }
+        }
+    }
     c.count("build_scripts", 1);
     if size_class == 4 {
         c.count("build_scripts_with_many_names", 1);
